@@ -16,7 +16,8 @@ EXPLANATION = (
     "that every error constructed by the parameter decoders (only_item, optional_item, all FromStr*/FromPlain* decoders and "
     "their closures) has error type InvalidArgument and the four auth failures PermissionDenied, and that cardinality errors "
     "are produced exactly for 0 / >=2 values (single) and >=2 (optional); (R19.3) template provenance in the endpoint macro: the "
-    "log-name slot of each helper-call template is bound to arg.log_as() (E3); (R19.4) in every generated handler of the "
+    "log-name slot of each helper-call template is bound to arg.log_as() (E3); (R19.5) the IR generator emits `log_as` exactly when "
+    "the identifier it emits (Context::field_name(argName)) differs from the declared argName; (R19.4) in every generated handler of the "
     "instance (both configs, both flavours) each extraction call's log_as constant equals the IR argName and its key / header "
     "/ path constants equal the IR ids, every IR argument has its extraction call and vice versa; (R19.6) the handler is "
     "invoked once, outside any loop, only after every extraction succeeded, with the extracted values in declared order; "
@@ -265,6 +266,56 @@ def run(ctx):
                       instance=f"{key}: handler call dominated by success of {len(ex)} extractions")
     ctx.floor("R19.4", "joined extraction calls", nargs, 4 * 27)
 
+    # ---------------- R19.5 generator: `log_as` is emitted exactly when the emitted identifier differs from the declared name
+    # the endpoint macro falls back to the Rust identifier when no log_as is given, so the generator must decide by comparing
+    # the identifier it emits (Context::field_name(argName): snake case + keyword escape) with the declared argName itself
+    cg = F.crate("conjure_codegen")
+    FIELD_NAME = "conjure_codegen::context::Context::field_name"
+    ARG_NAME = "ArgumentDefinition::arg_name"
+    sv = [b for b in cg.bodies if b.id.startswith("conjure_codegen::servers::")]
+
+    def origin(b, op, depth=0):
+        """set of labels describing where a compared operand comes from: 'ident' (Context::field_name of the declared name),
+        'declared' (arg_name), or the name of any other transforming call; follows helper parameters to the callers"""
+        roots, calls = dt.transforming_calls(b, op)
+        out = set()
+        for t in calls:
+            d = t["call"]["def"]
+            if d == FIELD_NAME:
+                inner = origin(b, t["args"][1], depth + 1) if len(t["args"]) > 1 else {"?"}
+                out.add("ident" if inner == {"declared"} else "ident-of-" + "/".join(sorted(inner)))
+            elif d.endswith(ARG_NAME):
+                out.add("declared")
+            else:
+                out.add(t["call"]["name"])
+        for k in roots:
+            if depth < 3:
+                callers = [(x, t) for x in sv for _, t in x.calls() if t["call"].get("id") == b.id and len(t["args"]) >= k]
+                if callers:
+                    for x, t in callers:
+                        out |= origin(x, t["args"][k - 1], depth + 1)
+                    continue
+            out.add(f"param#{k}")
+        return out
+
+    found = 0
+    for b in sv:
+        consts = {str((dt.resolve_const(b, a) or {}).get("str")) for _, t in b.calls() for a in t["args"]}
+        if not any("log_as" in x for x in consts):
+            continue
+        for bb, t in b.calls():
+            if t["call"]["def"] not in ("core::cmp::PartialEq::eq", "core::cmp::PartialEq::ne"):
+                continue
+            oa, ob_ = origin(b, t["args"][0]), origin(b, t["args"][1])
+            if not ({"ident", "declared"} & (oa | ob_)) and not any(x.startswith("ident-of") for x in oa | ob_):
+                if not ({"to_snake_case", "to_string"} & (oa | ob_)):
+                    continue
+            found += 1
+            ok = {frozenset(oa), frozenset(ob_)} == {frozenset({"ident"}), frozenset({"declared"})}
+            ctx.check(ok, "R19.5", b.loc(t["ln"]), f"{b.name}|log_as-decision",
+                      f"{b.name}: `log_as` is emitted depending on a comparison of {sorted(oa)} with {sorted(ob_)}; it must compare the emitted identifier (Context::field_name(argName)) with the declared argName, otherwise an argument whose identifier was changed (keyword escape `type` -> `type_`) gets no log_as and failures name the identifier",
+                      instance=f"{b.name}: log_as emitted iff field_name(argName) != argName")
+    ctx.floor("R19.5", "log_as emission decisions in the server generator", found, 1)
 
 def check_templates(ctx, tm):
     slots = 0
